@@ -390,9 +390,26 @@ int FUNC(verify)(jwt_common_t *__cmd, const char *token)
 	config.ctx = __cmd->c.cb_ctx;
 
 	/* Let the user handle this and update config */
-        if (__cmd->c.cb && __cmd->c.cb(jwt, &config)) {
-		jwt_write_error(__cmd, "User callback returned error");
-		return 1;
+	if (__cmd->c.cb) {
+		/* The callback may inspect the token, but nothing it does to
+		 * the claims is allowed to influence the verification. */
+		json_t *claims = json_deep_copy(jwt->claims);
+		int cb_ret;
+
+		if (claims == NULL) {
+			jwt_write_error(__cmd, "Error allocating memory");
+			return 1;
+		}
+
+		cb_ret = __cmd->c.cb(jwt, &config);
+
+		json_decref(jwt->claims);
+		jwt->claims = claims;
+
+		if (cb_ret) {
+			jwt_write_error(__cmd, "User callback returned error");
+			return 1;
+		}
 	}
 
 	/* Callback may have changed this */
